@@ -276,11 +276,12 @@ def borderline_instances3(first_id):
     return out
 
 
-def bind(ck, prop, n_inst, orders, seed, want_spec=True, want_order=True, want_terms=True, corrupt=None):
+def bind(ck, prop, n_inst, orders, seed, want_spec=True, want_order=True, want_terms=True, spec_verdict=False, corrupt=None):
     """Verdicts: (want_terms) every clustered data point's prior terms are size x log p / size x log(1-p) for one of the
     probabilities the input supplies; (want_order) identical loaded data under every row order of the two files.
-    Diagnostic (want_spec): the outcome is a final state of LossProb.tla for the instance, else MODEL-DRIFT - how options
-    resolve into p is documented behaviour the listed properties do not fix."""
+    want_spec: the outcome must be a final state of LossProb.tla for the instance.  With spec_verdict (C05: "the
+    per-mutation p" is the one the documented options and the cluster table resolve to) a mismatch of the global prior or
+    of the terms is a violation; otherwise, and for a mismatch of the truncal cluster alone, it is MODEL-DRIFT."""
     from . import kernels
     insts = gen_instances(seed, n_inst) + gen_instances(seed + 1, max(4, n_inst // 4), nc=4, ns=3)
     for k, inst in enumerate(insts):
@@ -334,7 +335,12 @@ def bind(ck, prop, n_inst, orders, seed, want_spec=True, want_order=True, want_t
                         break
             if want_spec:
                 ms = [matches(impl, f, inst) for f in fs]
-                if not any(m[0] for m in ms):
+                if not any(m[0] for m in ms) and spec_verdict and not any("truncal" in m[1] for m in ms):
+                    # C05: the per-mutation p is the one the documented options / the cluster table's column resolve to
+                    n_drift += 1
+                    ck.violation("%s|cluster_prior|not_the_documented_p" % prop, "cluster prior terms are not those of the probability the options and the cluster table resolve to "
+                                 "(LossProb.tla, options %s): %s" % (json.dumps(inst["opt"], sort_keys=True), "; ".join(sorted({m[1] for m in ms}))[:300]), dict(rep, order=order, impl=impl))
+                elif not any(m[0] for m in ms):
                     n_drift += 1
                     if n_drift <= 3:
                         ck.model_drift("cluster prior resolution differs from LossProb.tla (options %s): %s" % (
